@@ -184,9 +184,8 @@ Proof. intros b m1 m2 H1 H2 s W. destruct (b s); auto. Qed.
 Lemma good_root_close_impl : forall k t, good (root_close_impl k t).
 Proof.
   intros. apply good_finally.
-  - apply good_bind; [|apply good_cancel_nested].
-    apply (good_if (fun s => active k s)); auto using good_rollback_impl, good_ok.
-  - apply good_bind.
+  - apply (good_if (fun s => active k s)); auto using good_rollback_impl, good_ok.
+  - apply good_bind; [apply good_cancel_nested|]. apply good_bind.
     + apply (good_if (fun s => active k s || t)); auto using good_deact_root, good_ok.
     + apply (good_if (fun s => opt_is (c_root s) k) (fun s => (Ok, set_root None s))); [|apply good_ok].
       apply good_pure; [discriminate|apply WF_set_root].
@@ -318,8 +317,11 @@ Definition root_close_fin (k : nat) (t : bool) : M :=
        (fun s => if opt_is (c_root s) k then (Ok, set_root None s) else (Ok, s)).
 
 Lemma root_close_impl_inactive : forall k t s, active k s = false ->
-  root_close_impl k t s = finally cancel_nested (root_close_fin k t) s.
-Proof. intros. unfold root_close_impl, root_close_fin, finally. unfold bind at 1. rewrite H. reflexivity. Qed.
+  root_close_impl k t s = bind cancel_nested (root_close_fin k t) s.
+Proof.
+  intros. unfold root_close_impl, root_close_fin, finally. rewrite H.
+  destruct (bind cancel_nested _ s) as [[| e |] s2]; reflexivity.
+Qed.
 
 Lemma quiet_root_close_fin : forall k t, quiet (root_close_fin k t).
 Proof.
@@ -333,7 +335,7 @@ Lemma quiet_root_close_impl_inactive : forall k t s, active k s = false ->
   s_out (snd (root_close_impl k t s)) = s_out s /\ s_db (snd (root_close_impl k t s)) = s_db s.
 Proof.
   intros k t s H. rewrite root_close_impl_inactive by exact H.
-  apply quiet_finally; auto using quiet_cancel_nested, quiet_root_close_fin.
+  apply quiet_bind; auto using quiet_cancel_nested, quiet_root_close_fin.
 Qed.
 
 Lemma quiet_nested_close_impl_inactive : forall k w s, active k s = false ->
@@ -488,8 +490,8 @@ Qed.
 Lemma nb_root_close_impl : forall k t, nb (root_close_impl k t).
 Proof.
   intros. apply nb_finally.
-  - apply nb_bind; [|apply nb_cancel_nested]. apply (nb_if (fun s => active k s)); auto using nb_rollback_impl, nb_ok.
-  - apply nb_bind.
+  - apply (nb_if (fun s => active k s)); auto using nb_rollback_impl, nb_ok.
+  - apply nb_bind; [apply nb_cancel_nested|]. apply nb_bind.
     + apply (nb_if (fun s => active k s || t)); auto using nb_deact_root, nb_ok.
     + apply (nb_if (fun s => opt_is (c_root s) k) (fun s => (Ok, set_root None s))); [|apply nb_ok].
       apply nb_pure. reflexivity.
